@@ -94,7 +94,10 @@ Proof. exact start_search_height_spec. Qed.
    tied to the code by running the real Syncer against a scripted peer over loopback libp2p, Corr.C19.check_sync) *)
 (* "partial": stated for an honest peer (it answers the common block [cid] and delivers its blocks after it), the
    common block at or above the finalized height and, for fast sync, both tips within two rounds of it; peer
-   selection and the common-block search rounds are covered by their own theorems, not composed in *)
+   selection and the common-block search rounds are covered by their own theorems, not composed in.
+   ALSO ASSUMED: [forall c', finality c' <= finalized n] - no applied block raises the finalized height, i.e. finality does
+   not move during the sync. The moving-finality case is covered by the correspondence runs with Full:true
+   (Corr.C19.check_sync, dynamic finality) and by C19_failed_fast_sync_finality_moved_refuted *)
 Theorem C19_honest_peer_converges_partial : forall valid finality rs cs ba n pre cid own blocks th r2,
   chain n = pre ++ cid :: own -> ~ In cid pre ->
   (finalized n <= length pre)%nat -> (forall c', (finality c' <= finalized n)%nat) ->
@@ -236,7 +239,10 @@ Proof. exact honest_download_delivers_suffix. Qed.
 
 (* honest peer with chain pre ++ cid :: suffix (any length), all its blocks valid: block sync, and fast sync within two
    rounds, end exactly on the peer's chain; the delivered blocks are no longer a hypothesis but the downloader's result
-   against the handler *)
+   against the handler.
+   PARTIAL (the name is pinned, it carries no _partial suffix): assumes [forall c', finality c' <= finalized n] - finality
+   does not move during the sync; the moving-finality case is covered by the correspondence runs with Full:true and by
+   C19_failed_fast_sync_finality_moved_refuted *)
 Theorem C19_honest_sync_ends_on_peer_chain : forall valid finality rs cs ba n c pre cid own l tipid fuel th r2,
   g0 c = 0 -> ids c = pre ++ cid :: l ++ [tipid] -> ~ In tipid l ->
   Converge.chain n = pre ++ cid :: own -> ~ In cid pre -> (finalized n <= length pre)%nat ->
